@@ -158,8 +158,8 @@ KINDS = ["pointcloud", "polyline", "surface:tri", "surface:poly", "surface:any",
 
 def cases(seed, tier):
     rng = random.Random(seed * 104729 + 4)
-    out = _anchors() + _crash_cases()
-    n = 264 if tier == "quick" else 24000
+    out = _anchors()
+    n = 1001 if tier == "quick" else 40000
     sizes = [1, 2, 3] if tier == "quick" else [1, 2, 3, 4, 6, 8]
     for i in range(n):
         kind = KINDS[i % len(KINDS)]
@@ -179,6 +179,8 @@ def cases(seed, tier):
             d["attrs"] = d["attrs"] + [{"on": "vertices", "type": "float", "arity": 3, "dense": rng.random() < 0.5, "dflt": False,
                                        "fill": 1.0, "name": "normals"}]
         out.append(d)
+    # last, so that a native abort costs no re-run of other cases (each lands at the end of its shard)
+    out += _crash_cases()
     return out
 
 
